@@ -26,7 +26,8 @@ CAP = 1024      # the buffer of handleApiRequest as specified (a change of the c
 # ------------------------------------------------------------------ facts read from the source (never verdicts)
 def source_facts(ctx):
     tn = open(os.path.join(REPO, "telnet", "telnet.go")).read()
-    m = re.search(r'conn\.Write\(\[\]byte\("((?:[^"\\]|\\.)*)"\)\)\s*\n\s*n, err := conn\.Read', tn)
+    body = tn[tn.index("func handleApiRequest"):]
+    m = re.search(r'conn\.Write\(\[\]byte\("((?:[^"\\]|\\.)*)"\)\)', body)
     if not m:
         raise Machinery("cannot find the banner of handleApiRequest in telnet/telnet.go")
     banner = json.loads('"' + m.group(1) + '"')
@@ -129,12 +130,12 @@ def model_check(ctx):
     else:
         good = [("mc_lock", C(HttpSet="few", MaxHttp=2, **LOCK)),
                 ("mc_pair", C(Cap=8, ScriptSet="pair")),
-                ("mc_pair_http", C(Cap=8, ScriptSet="pair", MaxReads=3, HttpSet="few", MaxHttp=2)),
-                ("mc_merge", C(Cap=20, ScriptSet="merge", MaxReads=4)),
-                ("mc_merge64", C(Cap=64, ScriptSet="merge", MaxReads=3)),
-                ("mc_long", C(Cap=12, ScriptSet="long", MaxReads=4)),
-                ("mc_long20", C(Cap=20, ScriptSet="long", MaxReads=3)),
-                ("mc_space", C(Cap=16, ScriptSet="space", MaxReads=4)),
+                ("mc_pair_http", C(Cap=8, ScriptSet="pair", MaxReads=4, HttpSet="few", MaxHttp=2)),
+                ("mc_merge", C(Cap=20, ScriptSet="merge", MaxReads=5)),
+                ("mc_merge64", C(Cap=64, ScriptSet="merge", MaxReads=4)),
+                ("mc_long", C(Cap=12, ScriptSet="long", MaxReads=5)),
+                ("mc_long20", C(Cap=20, ScriptSet="long", MaxReads=4)),
+                ("mc_space", C(Cap=16, ScriptSet="space", MaxReads=5)),
                 ("mc_http_idx", C(HttpSet="idx", MaxHttp=3)),
                 ("mc_http_key", C(HttpSet="key", MaxHttp=3))]
 
@@ -340,6 +341,8 @@ def classify(block, idx):
     if e == "reply":
         return "wrong-reply got=%s text=%s" % (r["cls"], sig_text(prev["text"]) if prev else "-")
     if e == "banner":
+        if block[idx - 1]["ev"] == "read":
+            return "no-reply-before-the-banner text=%s" % sig_text(prev["text"])
         return "banner-out-of-place text=%s" % (sig_text(prev["text"]) if prev else "-")
     if e == "snap":
         last = next((x for x in reversed(block[:idx]) if x["ev"] in ("read", "http")), None)
@@ -403,6 +406,9 @@ def run(ctx):
         ctx.sample(dict(crash=crash["tail"][-400:]))
         return
     blocks, info = join(recs, errs)
+    if any(r["ev"] == "stall" for b in blocks for r in b) and not any(r["ev"] == "read" for b in blocks for r in b):
+        raise Machinery("dead driver: no \"received command: '...'\" line of telnet/telnet.go was seen although commands were sent; "
+                        "the reads of the server cannot be observed")
     if len(blocks) != len(cases) and "aborted_at" not in info:
         raise Machinery("driver recorded %d cases of %d" % (len(blocks), len(cases)))
     nacc, rej = validate_all(ctx, blocks, ctx.pick(4, 4))
@@ -490,9 +496,10 @@ def selftest(ctx, good, strict=True):
     probe("model_split_fields", lambda r: r["ev"] == "read" and r["text"].startswith("addRoute sendAllMatch") and "  " in r["text"],
           lambda b, i: i + 1, dict(Mutant="split_fields", Cap=CAP))
     names = [j[0] for j in jobs]
-    need = {"model_notfound_answered", "model_idx_strict", "model_split_fields", "read_text", "reply_class", "reply_dropped", "banner_twice", "snapshot_entry_missing", "http_status",
+    # (model_notfound_answered is offered only while the relay leaves "not found" unanswered)
+    need = {"model_idx_strict", "model_split_fields", "read_text", "reply_class", "reply_dropped", "banner_twice", "snapshot_entry_missing", "http_status",
             "http_nonnumeric_refused", "sent_byte_changed", "read_longer_than_buffer"}
-    if set(names) != need and strict:
+    if not need <= set(names) and strict:
         raise Machinery("binding self-test: the accepted cases do not offer every probe (missing %s)" % sorted(need - set(names)))
     if ctx.quick():
         jobs = [j for j in jobs if j[0] in ("read_text", "reply_dropped", "snapshot_entry_missing", "http_nonnumeric_refused",
